@@ -703,10 +703,7 @@ func (s *scanner) readInlineImage() (Operator, error) {
 	// validate image dimensions (defense against resource exhaustion)
 	width := getInlineImageInt(dict, "W", "Width")
 	height := getInlineImageInt(dict, "H", "Height")
-	if width <= 0 || height <= 0 || width > maxInlineImageDim || height > maxInlineImageDim {
-		return Operator{}, parseError{}
-	}
-	if width*height > maxInlineImagePixels {
+	if !inlineImageSizeOK(width, height) {
 		return Operator{}, parseError{}
 	}
 
